@@ -24,7 +24,6 @@ import (
 	"log"
 	"os"
 	"strings"
-	"sync"
 
 	"qchen.fun/fatchoy/x/uuid"
 	. "verifharness/common"
@@ -165,6 +164,10 @@ func eventsSx(evs []event) Sx {
 }
 
 func run(in Sx) Sx {
+	if in.At(0).Kind == 'i' { // a concurrent scenario: (9 seed ngen callers each step delay)
+		_, _, obs := concObserved(concParamsOf(in))
+		return obs
+	}
 	var evs []event
 	for _, s := range in.At(0).L {
 		evs = append(evs, eventOf(s))
@@ -518,6 +521,7 @@ func gen(a Args, out *Out) {
 		}
 		record(style, evs, outs, raws)
 	}
+	genConcurrent(a, out, r.Fork())
 	// the default step: a whole segment of 2000 ids and the roll-over, two generators
 	nlong := 3
 	if a.Thorough() {
@@ -553,58 +557,20 @@ func gen(a Args, out *Out) {
 	out.Note("Go-side sweep: %d further histories checked for distinct / in-segment / consecutive / increasing / error handling", nvol)
 }
 
-// concurrent: m goroutines per generator, n generators on one store; all ids distinct, each
-// caller's ids increasing.  Run under -race in the thorough tier.
+// concurrent: the concurrent scenarios alone, checked on the Go side (distinct, in-segment,
+// consecutive, error handling on the linearised history).  Run under -race in the thorough tier.
 func concurrent() {
-	const gens, callers, each = 4, 6, 5000
-	var mu sync.Mutex
-	ctr := int64(0)
-	st := &lockedStore{incr: func() (int64, error) {
-		mu.Lock()
-		defer mu.Unlock()
-		ctr++
-		if ctr%7 == 0 {
-			return 0, errAfter
-		}
-		return ctr, nil
-	}}
-	var wg sync.WaitGroup
-	got := make([][]int64, gens*callers)
-	for g := 0; g < gens; g++ {
-		sg := uuid.NewSeqIDGen(st, 3)
-		for sg.Init() != nil {
-		}
-		for c := 0; c < callers; c++ {
-			wg.Add(1)
-			go func(k int) {
-				defer wg.Done()
-				for len(got[k]) < each {
-					if id, err := sg.Next(); err == nil {
-						got[k] = append(got[k], id)
-					}
-				}
-			}(g*callers + c)
+	r := NewRng(1)
+	calls := 0
+	for k := 0; k < 40; k++ {
+		p := concParams{seed: r.Next() >> 1, ngen: r.Range(1, 4), callers: r.Range(2, 6), each: r.Range(20, 120),
+			step: r.PickI64(1, 2, 3, 5, 8), dly: k % 4}
+		evs, outs := runConcurrent(p)
+		calls += len(evs)
+		if what, ok := goCheck(evs, outs); !ok {
+			fmt.Println("FAIL:", what, p.sx().String())
+			os.Exit(1)
 		}
 	}
-	wg.Wait()
-	seen := map[int64]bool{}
-	for k := range got {
-		for i, id := range got[k] {
-			if seen[id] {
-				fmt.Println("FAIL: duplicate id", id)
-				os.Exit(1)
-			}
-			seen[id] = true
-			if i > 0 && got[k][i-1] >= id {
-				fmt.Println("FAIL: ids of one caller not increasing")
-				os.Exit(1)
-			}
-		}
-	}
-	fmt.Printf("concurrent: %d generators x %d callers x %d ids distinct, per-caller increasing\n", gens, callers, each)
+	fmt.Printf("concurrent: 40 scenarios, %d linearised calls, property holds\n", calls)
 }
-
-type lockedStore struct{ incr func() (int64, error) }
-
-func (s *lockedStore) Incr() (int64, error) { return s.incr() }
-func (s *lockedStore) Close() error         { return nil }
